@@ -530,6 +530,71 @@ pub fn odd_config_doc(rng: &mut Rng) -> String {
     s
 }
 
+/// CR LF line ends everywhere, also in content that is copied verbatim (comments, CDATA,
+/// attribute values), with runs long enough and a pad random enough that a CR lands on every
+/// kind of buffer boundary (8192-byte readers, the simulator's chunk plans).
+pub fn crlf_doc(rng: &mut Rng) -> String {
+    let pad = rng.usize(300);
+    let run = |rng: &mut Rng| {
+        let max = if rng.chance(1, 3) { 6000 } else { 200 };
+        "\r\n".repeat(20 + rng.usize(max))
+    };
+    let mut s = String::from("<svg>\r\n");
+    s.push_str(&format!("  <!-- {} -->\r\n", "p".repeat(pad)));
+    for _ in 0..1 + rng.usize(3) {
+        match rng.below(5) {
+            0 => s.push_str(&format!("  <!--a{}b-->\r\n", run(rng))),
+            1 => s.push_str(&format!("  <text xy=\"0 0\"><![CDATA[c{}d]]></text>\r\n", run(rng))),
+            2 => s.push_str(&format!("  <rect wh=\"3\" data-k=\"e{}f\"/>\r\n", run(rng))),
+            3 => s.push_str(&format!("  <rect wh=\"4\"\r\n     xy=\"1 2\"\r\n     text=\"two\r\nlines\"/>\r\n{}", run(rng))),
+            _ => s.push_str(&format!("  <style>\r\nrect {{ fill: red; }}{}\r\n</style>\r\n", run(rng))),
+        }
+    }
+    s.push_str("  <rect xy=\"^|h 2\" wh=\"2\"/>\r\n</svg>\r\n");
+    s
+}
+
+/// A document which runs into one of svgdx's limits (configured or internal) and fails: as
+/// history it leaves whatever a failed transform can leave behind.
+pub fn limit_hitting_doc(rng: &mut Rng) -> String {
+    match rng.below(8) {
+        0 => {
+            // variable lookup budget of one expression
+            let mut s = String::from("<svg><var v0=\"1\"/>");
+            for i in 1..=16 {
+                s.push_str(&format!("<var v{i}=\"{{{{_(join('', '$', 'v{} + ', '$', 'v{}'))}}}}\"/>", i - 1, i - 1));
+            }
+            s.push_str("<text xy=\"0 0\" text=\"{{$v16}}\"/></svg>");
+            s
+        }
+        1 => format!("<svg><rect wh=\"{{{{{}1{}}}}}\"/></svg>", "(".repeat(130), ")".repeat(130)),
+        2 => {
+            let mut s = String::from("<svg><clipPath id=\"c0\"><rect wh=\"9\"/></clipPath>");
+            for i in 1..=20 {
+                s.push_str(&format!("<clipPath id=\"c{i}\" clip-path=\"url(#c{})\"><rect wh=\"9\"/></clipPath>", i - 1));
+            }
+            s.push_str("<rect id=\"z\" wh=\"5\" clip-path=\"url(#c20)\"/><rect xy=\"#z|h\" wh=\"1\"/></svg>");
+            s
+        }
+        3 => "<svg><loop count=\"1001\"><rect wh=\"1\"/></loop></svg>".to_string(),
+        4 => format!("<svg><var v=\"{}\"/><rect wh=\"1\" text=\"$v\"/></svg>", "x".repeat(1025)),
+        5 => format!("<svg>{}<rect wh=\"1\"/>{}</svg>", "<g>".repeat(101), "</g>".repeat(101)),
+        6 => "<svg><specs><g id=\"a\"><rect wh=\"1\"/><reuse href=\"#a\"/></g></specs><reuse href=\"#a\"/></svg>".to_string(),
+        _ => "<svg><var i=\"0\"/><loop while=\"1\"><var i=\"{{$i + 1}}\"/></loop></svg>".to_string(),
+    }
+}
+
+/// `n` elements which all fail, for counts around the widths such a count might be stored in.
+pub fn many_failures_doc(rng: &mut Rng) -> String {
+    let n = *rng.pick(&[2usize, 3, 127, 128, 255, 256, 257, 511, 512, 768, 1024]);
+    let mut s = String::from("<svg>\n");
+    for i in 0..n {
+        s.push_str(&format!("<rect xy=\"#nope{i}|h\" wh=\"1\"/>\n"));
+    }
+    s.push_str("</svg>\n");
+    s
+}
+
 pub const THEMES: &[&str] = &["default", "bold", "fine", "glass", "light", "dark"];
 
 /// A configuration with limits at or below their defaults.
